@@ -39,7 +39,7 @@ fn small_vcf() -> (Vec<String>, Vec<gen::Rec>) {
     let cols: Vec<String> = ["a", "b", "c"].iter().map(|s| s.to_string()).collect();
     let rows = [["0/1", "1/1", "0/0"], ["0/0", "0|1", "./."], ["1/1", "0/1", "1/2"]];
     let recs = rows.iter().enumerate().map(|(i, r)| gen::Rec {
-        contig: "chr1".into(), pos: (i + 1) as u64, bad: false, nogt: false,
+        contig: "chr1".into(), pos: (i + 1) as u64, bad: false, nogt: false, short_alt: false,
         gt: cols.iter().cloned().zip(r.iter().map(|s| s.to_string())).collect(),
     }).collect();
     (cols, recs)
@@ -185,6 +185,12 @@ pub fn run(case: &Value, ctx: &Ctx) -> Outcome {
                 // numpy writes 'shape': () for a 0-dimensional (scalar) array, with exactly one value
                 "npy_shape_scalar" => crate::fam_npy::assemble(1, &format!("{:<117}\n", "{'descr': '<f8', 'fortran_order': False, 'shape': (), }"), &3.5f64.to_le_bytes()),
                 "npy_shape_scalar_novalue" => crate::fam_npy::assemble(1, &format!("{:<117}\n", "{'descr': '<f8', 'fortran_order': False, 'shape': (), }"), &[]),
+                // valid UTF-8 whose "digits" are not ASCII: numeric to Unicode, not to a parser of decimal integers
+                "text_shape_arabic_digit" => "#SHAPE=<\u{0663}>\n1 2 3\n".as_bytes().to_vec(),
+                "text_shape_superscript" => "#SHAPE=<3\u{00b2}>\n1 2 3\n".as_bytes().to_vec(),
+                "text_shape_fullwidth" => "#SHAPE=<\u{ff13}>\n1 2 3\n".as_bytes().to_vec(),
+                "text_shape_half_after" => "#SHAPE=<2/\u{00bd}>\n1 2\n".as_bytes().to_vec(),
+                "text_value_fullwidth" => "#SHAPE=<3>\n1 \u{ff12} 3\n".as_bytes().to_vec(),
                 "text_shape_scalar_like" => b"#SHAPE=<1>\n3.5\n".to_vec(),
                 "npy_shape_zero" => crate::fam_npy::assemble(1, &format!("{:<117}\n", "{'descr': '<f8', 'fortran_order': False, 'shape': (0,), }"), &[]),
                 "npy_header_len_huge" => { let mut b = b"\x93NUMPY\x02\x00".to_vec(); b.extend_from_slice(&0xffff_fff0u32.to_le_bytes()); b.extend_from_slice(b"{'descr': '<f8'}"); b }
@@ -290,7 +296,7 @@ pub fn run(case: &Value, ctx: &Ctx) -> Outcome {
         "manypops" => {
             let n = sc["n"].as_u64().unwrap() as usize;
             let cols: Vec<String> = (0..n).map(|i| format!("s{i}")).collect();
-            let rec = gen::Rec { contig: "chr1".into(), pos: 1, bad: false, nogt: false, gt: cols.iter().map(|c| (c.clone(), "0/1".to_string())).collect() };
+            let rec = gen::Rec { contig: "chr1".into(), pos: 1, bad: false, nogt: false, short_alt: false, gt: cols.iter().map(|c| (c.clone(), "0/1".to_string())).collect() };
             let vcf = gen::vcf_text(&cols, &[rec], false);
             let list = (0..n).map(|i| format!("s{i}=p{i}")).collect::<Vec<_>>().join(",");
             let mut args: Vec<String> = vec!["create".into(), "-s".into(), list];
